@@ -1131,3 +1131,40 @@ def regex_census(corpus):
     for k, caller in used.items():
         pats.setdefault(k, caller)
     return pats
+
+
+def autohandler_case(cfg):
+    """inheritance through an expression, mako.ext.autohandler: directories /, /a, /a/b each with a page and (per flag) an
+    autohandler that itself inherits through autohandler(); the pages of cfg["order"] are rendered one after the other through
+    one TemplateLookup: returns [(uri, rendered, expected)]"""
+    import os
+    import shutil
+    import tempfile
+    from mako.lookup import TemplateLookup
+    base = tempfile.mkdtemp(prefix="c06auto")
+    head = "<%! from mako.ext.autohandler import autohandler %><%inherit file=\"${autohandler(template, context)}\"/>"
+    dirs = ["", "/a", "/a/b"]
+    try:
+        for lvl, d in enumerate(dirs):
+            os.makedirs(base + d, exist_ok=True)
+            with open(base + d + "/page", "w") as f:
+                f.write(head + "page%d who=${self.who()}<%%def name=\"who()\">p%d</%%def>" % (lvl, lvl))
+            if cfg["autohandlers"][lvl]:
+                with open(base + d + "/autohandler", "w") as f:
+                    f.write(head + "A%d[${next.body()}]" % lvl)
+        lk = TemplateLookup([base], filesystem_checks=cfg["filesystem_checks"])
+        out = []
+        for lvl in cfg["order"]:
+            uri = dirs[lvl] + "/page"
+            want = "page%d who=p%d" % (lvl, lvl)
+            for k in range(lvl, -1, -1):
+                if cfg["autohandlers"][k]:
+                    want = "A%d[%s]" % (k, want)
+            try:
+                got = lk.get_template(uri).render()
+            except Exception as e:
+                got = "raised %s: %s" % (type(e).__name__, str(e)[:80])
+            out.append((uri, got, want))
+        return out
+    finally:
+        shutil.rmtree(base, ignore_errors=True)
